@@ -5,6 +5,7 @@ import Driver.OpsFixed
 import Driver.OpsCli
 import Driver.OpsSql
 import Driver.OpsDataFormat
+import Driver.OpsCsv
 open Driver
 
 def dispatch (args : List String) : String :=
@@ -18,6 +19,7 @@ def dispatch (args : List String) : String :=
     else if op == "cli" then opCli args
     else if op.startsWith "sql." then opSql args
     else if op == "df" || op.startsWith "df." then opDataFormat args
+    else if op.startsWith "csv." then opCsv args
     else "bad-op"
 
 partial def loop (h : IO.FS.Stream) (out : IO.FS.Stream) : IO Unit := do
